@@ -23,6 +23,8 @@ BASES = ["http://h", "http://h/", "http://h/a", "http://h/a/", "http://h/a/b", "
          "http://h/d/archive.tar.", "http://h/a..", "http://h/.a.b.", "http://h/report.v2.", "/x/..b", "http://h/a.b..", "http://h/d//n.t",
          # a suffix that carries escapes (its raw and decoded lengths differ)
          "http://h/f.%D1%82x", "http://h/d/report.a%20b", "/r.%C3%A9", "x.%25y"]
+ENC_BASES = ["http://h/dir/a%2fb%20c", "/a%2fb", "http://h/%2f", "http://h/a%2Fb%2fc/d.e", "a%2f%2e/b.c", "http://h/x%2f", "http://h/%2e%2e/a%2fb.t",
+             "http://h/a%3fb/c%23d", "http://h/d/%41%2f%42.txt", "/p%2fq/r%2f", "http://h/a%2f%2fb", "x:a%2fb/c"]
 SEGS = ["s", "a b", "é", "x.y", ".h", "a.", "%2F", "a%2Fb", "%", "a+b", "a;b=c", ":", "@", "~", "a?b", "a#b", "日本", "..a", ".", "..", ""]
 SUFFIXES = [".py", ".tar.gz", "", ".a b", ".é", ".%41", ".", "py"]
 
@@ -44,6 +46,14 @@ def run(ctx):
     cases = []      # (kind, [arg values], [program keys])
     for b in bases:
         cases.append((0, [], [P(push(b))]))
+    # stored paths that only encoded=True can produce: lower-case, over-encoded and delimiter escapes inside a segment
+    for b in ENC_BASES:
+        e = [["push", ["enc", b]]]
+        cases.append((0, [], [P(e)]))
+        cases.append((0, [], [P(e + [["op", "div", "s"]])]))
+        cases.append((0, [], [P(e + [["op", "with_suffix", ".x", False, False]])]))
+        cases.append((0, [], [P(e + [["op", "parent"]])]))
+        cases.append((4, [".x"], [P(e), P(e + [["op", "with_suffix", ".x", False, False]])]))
     for b in bases[:len(BASES)]:
         for s in SEGS:
             d = push(b) + [["op", "div", s]]
